@@ -5,7 +5,8 @@
                                   cells, defaults, west side of a Link defaulting to its east side (an Eqpt row's west
                                   side defaults to the class defaults, NOT to east);
                                   parse_excel's node-type normalisation and its two checks (972-1003);
-                                  sanity_check (402-502) with the order in which the rules fire;
+                                  sanity_check (402-511, incl. the self-loop and FUSED-degree rules of c9212f62 / 07aa6e2a) with the
+                                  order in which the rules fire;
                                   create_roadm_element / create_east|west_eqpt_element / create_east|west_fiber_element
                                   (505-692), xls_to_json_data (695-787) without region filter,
                                   eqpt_connection_by_city, connect_eqpt, eqpt_in_city_to_city (1008-1101),
